@@ -165,7 +165,7 @@ Print Assumptions C12_recovery_partial.
 
 (* non-vacuity: a device with a login and an `on` script, run through a history with a time-out *)
 Definition ex_rmatch : text -> text -> option pmatch := fun _ _ => None.
-Definition ex_compress : list text -> text := fun _ => [].
+Definition ex_compress : list text -> text := fun l => concat (map (fun t => t ++ [44%N]) l).     (* grows with its input: names joined by commas *)
 Definition ex_dev : device :=
   mk_device (bslit "d0") [mkPlug (bslit "p1") (Some (bslit "n1"))]
             [(PM_LOG_IN, [Send (bslit "login\n"); Expect (bslit "ok")]); (PM_POWER_ON, [Send (bslit "on %s\n"); Expect (bslit "done")])] 5000000 0.
